@@ -543,6 +543,26 @@ pub fn all() -> Vec<Scenario> {
             });
         }
     }
+    // coefficients of an extension element reaching ordinary ALU consumers: one consumer row reads another value than the slot holds
+    for which in 0..4usize {
+        for (pk, packing) in [("lanes1", TablePacking::new(1, 1)), ("default", TablePacking::default())] {
+            let id: &'static str = Box::leak(format!("ext-coefficient-consumer-reads-other-value:coeff={which}:{pk}").into_boxed_str());
+            let r = catch_unwind(AssertUnwindSafe(|| crate::extbits::coeff_consumer(which, packing)));
+            per_bit.push(match r {
+                Ok(Ok((honest_ok, accepted, how))) => Scenario {
+                    id,
+                    properties: &["C12", "C09", "C04"],
+                    what: "decompose_ext_to_base_coeffs::<BabyBear>(x) over BinomialExtensionField<BabyBear, 4> (ALU recomposition path), y = sum (1000 + k_i) * c_i with the coefficient as the first operand of a multiplication; in a clone of the circuit the multiplication of ONE coefficient reads the next coefficient's slot, the real runner propagates (y follows), the row's index is restored: the table row claims slot c_i with another value; proven with the prover data of the original circuit",
+                    honest: if honest_ok { "accepted".into() } else { "honest decomposition refused".into() },
+                    forged: Some(how),
+                    accepted,
+                    detail: json!({"coefficient": which, "packing": pk}),
+                },
+                Ok(Err(e)) => Scenario { id, properties: &[], what: "", honest: format!("scenario construction failed: {e}"), forged: None, accepted: false, detail: json!({}) },
+                Err(_) => Scenario { id, properties: &[], what: "", honest: "panic while constructing the scenario".into(), forged: None, accepted: false, detail: json!({}) },
+            });
+        }
+    }
     // base-field challenger: one capacity element altered between two permutations, for every capacity slot
     for slot in crate::capchain::SLOTS {
         let id: &'static str = Box::leak(format!("challenger-capacity-chain-base:slot={slot}").into_boxed_str());
